@@ -101,6 +101,18 @@ func implAccepts(lang, src string) (ok bool, msg string, panicked any) {
 	return true, "", nil
 }
 
+func customAccepts(src string) (ok bool, msg string, panicked any) {
+	defer func() {
+		if r := recover(); r != nil {
+			panicked = r
+		}
+	}()
+	if _, err := expr.NewExprMachineWithCustomFunctions(src, mapFn); err != nil {
+		return false, err.Error(), nil
+	}
+	return true, "", nil
+}
+
 func classify(lang, src string) (int, string) {
 	if lang == "expr" {
 		v, why := xp10.ClassifyCore(src, knownPrefix)
@@ -183,6 +195,15 @@ func (r *runner) one(lang string, toks []string, sep string) {
 	}
 	if v == mustAccept || (v == mustReject && len(toks) > 1) {
 		r.c.Nontrivial()
+	}
+	if lang == "expr" && p == nil {
+		// the constructor that also admits registered custom functions decides the same way (no custom
+		// function is registered here): same verdict for every string
+		ok2, msg2, p2 := customAccepts(src)
+		if p2 != nil || ok2 != ok {
+			r.c.Report(engine.Violation{Key: fmt.Sprintf("constructors-disagree:NewExprMachineWithCustomFunctions:plain=%v:custom=%v", ok, ok2), Witness: lang + ":" + strconv.Quote(src),
+				Detail: fmt.Sprintf("NewExprMachine accepts=%v (%s); NewExprMachineWithCustomFunctions accepts=%v panic=%v (%s)", ok, firstLines(msg), ok2, p2, firstLines(msg2)), Harness: "c04", Replay: engine.JSON(rec{lang, strconv.Quote(src)})})
+		}
 	}
 	kind, detail := "", ""
 	switch {
